@@ -41,6 +41,16 @@ func check(c arith.Case, st *core.Stats) error {
 	if int64(len(c.X.Coeff)) > int64(c.Ctx.P) {
 		st.Class("operand-longer-than-P")
 	}
+	if len(c.X.Coeff) >= 39 {
+		st.Class("heap-coefficient")
+	}
+	// the result written over the operand must be the same value with the same conditions
+	var oa arith.Out
+	core.Guard(st, func() { x := c.X.Apd(); oa = arith.Call(c.Op, c.Ctx.Apd(), x, x, nil, 0, "") })
+	if oa.Err != nil || !core.SameFields(o.D, oa.D) || o.Res != oa.Res {
+		return fmt.Errorf("%v: %s flags=%s with a fresh destination, but %s flags=%s err=%v when the destination is the operand",
+			c, core.Show(o.D), core.FlagStr(o.Res), core.Show(oa.D), core.FlagStr(oa.Res), oa.Err)
+	}
 	if c.Op == "sqrt" {
 		e := arith.Reference(c)
 		if !e.Defined {
